@@ -721,11 +721,13 @@ def run(ctx: lib.Ctx) -> None:
         if m and m not in prim_tags:
             mutated.add(m)
     mutated = sorted(mutated)
+    name_set = set(names)
+    mutated_only = set(mutated) - name_set
     ctx.extra['mutated_names'] = len(mutated)
 
     cases, meta = [], []
     for name in names + mutated:
-        for annots, args in (variants(name) if name in names or True else ()):
+        for annots, args in variants(name):
             out = impl_expand(name, annots, args)
             if out is not None and out and out[0] == '<not a list>':
                 ctx.violation('expand_macro returned a non-list', {'name': name, 'out': out[1]}, found=False)
@@ -736,7 +738,7 @@ def run(ctx: lib.Ctx) -> None:
                 lit = 'None'   # something that is not Micheline at all
             cases.append((f'({cstr(name)}, {clist(chex(a.encode()) for a in annots)}, {clist(lib.cnode(a) for a in args)})', lit))
             meta.append((name, annots, args, out))
-            kind = 'rejected' if out is None else ('mutated-accepted' if name in mutated and name not in names else
+            kind = 'rejected' if out is None else ('mutated-accepted' if name in mutated_only else
                                                     re.sub(r'(EQ|NEQ|LT|GT|LE|GE)$', 'op', re.sub(r'[PAI]{3,}R$', '..R', re.sub(r'[AD]+R$', 'x..R', re.sub(r'(II+|UU+)P$', 'xxP', name)))))
             ctx.case(('syn', name, annots, repr(args)), nontrivial=out is not None and len(out) + sum(isinstance(x, list) for x in out) >= 2,
                      kind='syn:' + kind, sample={'expand_macro': [name, list(annots), args], 'result': out})
@@ -758,7 +760,10 @@ def run(ctx: lib.Ctx) -> None:
         for i in bad:
             if meta[i][0] not in bad_names:
                 bad_names.append(meta[i][0])
-        cands = [(n, meta[[m[0] for m in meta].index(n)][1]) for n in bad_names[:60]]
+        first_annots = {}
+        for m in meta:
+            first_annots.setdefault(m[0], m[1])
+        cands = [(n, first_annots[n]) for n in bad_names[:60]]
         if any(re.fullmatch(r'(UN)?P[PAI]{3,}R', n) for n in bad_names):
             cands += [(n, ()) for w in wf_tree_names(7) for n in (w, 'UN' + w)]
         for cname, cannots in cands:
